@@ -91,6 +91,9 @@ def main():
         sh("git -C /repo worktree remove --force %s" % wt)
         shutil.rmtree(wt, ignore_errors=True)
     confirmed = rc0 == 0 and rc1 != 0 and suite_ok
+    # a later repair of orso can make a seeded change behaviour-preserving (its demonstration then passes with the
+    # change applied): it no longer breaks the property and is kept for the record only
+    superseded = rc0 == 0 and rc1 == 0 and suite_ok
     print("demo unchanged=%d changed=%d suite=%s confirmed=%s" % (rc0, rc1, summary, confirmed))
     isolated = "--isolated" in sys.argv
     if isolated:
@@ -170,6 +173,7 @@ def main():
         "files": meta.get("files"),
         "author_ran": meta.get("ran") or meta.get("author_ran"),
         "confirmed_independently": confirmed,
+        "superseded": superseded,
         "verifier_ran": ran,
         "patch_used": os.path.basename(patch),
         "check_tier": tier,
